@@ -371,7 +371,43 @@ def enum_fetch(seed):
                     bad = f"no host serves the file, {len(hosts)} attempts: answered {res} after trying {tried}; the URIs are {hosts}"
                 if bad and len(fails) < 3:
                     fails.append({"model": {"uri_list": [str(x) for x in shape], "serving": serving, "attempts": len(hosts)}, "detail": f"uri_list of tiers {shape} (hosts per mirror tier / plain URIs): {bad}"})
-    return {"name": "C36.fetcher.fetch.bounded_enumeration", "bound": "8 uri_list shapes (1..3 mirror tiers of 1..3 hosts, plain URIs in between) x every serving host; attempts 1-3, 1 or 3 URIs, 3 initial states, all outcome sequences (4 states x 2 exit codes) for the first two spawns; "
+    # one location listed twice (the same SRC_URI entry under two USE conditionals): it stands for two attempts, the second of which may complete
+    # what the first one left; listed next to a mirror tier as well
+    for with_tier in (False, True):
+        cases += 1
+        U = "http://only.example/f.tar"
+        with tempfile.TemporaryDirectory(dir="/var/tmp") as d:
+            path = os.path.join(d, "f.tar")
+            tried = []
+
+            def spawn2(cmd, **kw):
+                tried.append(cmd.split()[1])
+                if cmd.split()[1] != U:
+                    return 1
+                n_ = tried.count(U)
+                with open(path, "wb") as fh:
+                    fh.write(good[:len(good) // 2] if n_ == 1 else good)
+                return 1 if n_ == 1 else 0
+            u = uri_list("f.tar")
+            if with_tier:
+                u.add_mirror(mirror(["http://t0h0"], "tier0"), "sub/f.tar")
+            u.add_uri(U)
+            u.add_uri(U)
+            u.finalize()
+            want_tried = (["http://t0h0/sub/f.tar"] if with_tier else []) + [U, U]
+            f = custom.fetcher(distdir=d, command="fetch ${URI} ${FILE}", resume_command="resume ${URI} ${FILE}", userpriv=False, attempts=len(want_tried))
+            with mock.patch("pkgcore.fetch.custom.spawn_bash", side_effect=spawn2):
+                try:
+                    r = f(fetchable("f.tar", uri=u, chksums=chk))
+                    res = "returned" if r is not None else "no path (None)"
+                except errors.FetchError as e:
+                    res = f"{type(e).__name__}: {e}"
+                except Exception as e:
+                    res = f"{type(e).__name__}: {e}"
+            if (res != "returned" or tried != want_tried) and len(fails) < 3:
+                fails.append({"model": {"uri_list": (["tier of 1 host"] if with_tier else []) + [U, U], "attempts": len(want_tried), "outcomes": "first attempt at the location leaves half the file, the second completes it"},
+                              "detail": f"a location listed twice, {len(want_tried)} attempts, the second attempt at it completes the file: answered {res} after trying {tried}; every allowed attempt means {want_tried}"})
+    return {"name": "C36.fetcher.fetch.bounded_enumeration", "bound": "2 uri_lists with one location listed twice (partial, then complete); 8 uri_list shapes (1..3 mirror tiers of 1..3 hosts, plain URIs in between) x every serving host; attempts 1-3, 1 or 3 URIs, 3 initial states, all outcome sequences (4 states x 2 exit codes) for the first two spawns; "
             "again with 0-byte files, with a distfile of recorded size 0 and without checksums, checking the command each spawn used", "cases": cases, "failures": fails}
 
 
